@@ -116,3 +116,205 @@ Proof.
   - eexists _, _. reflexivity.
   - exfalso. apply Hw. apply H3. reflexivity.
 Qed.
+
+(* ================= C05: framing of command / query and fault handling ================= *)
+Lemma retry_consumes n : forall r sc x sc', retry n r sc = (x, sc') -> (length sc' <= length sc)%nat /\ (length sc - length sc' <= n)%nat.
+Proof.
+  induction n as [|n IH]; intros r sc x sc' H; cbn [retry] in H.
+  - injection H as _ <-. lia.
+  - destruct r as [|c r'].
+    + destruct sc as [|e t]; cbn [readline] in H.
+      * destruct (IH _ _ _ _ H) as [A B]. cbn [length] in *. lia.
+      * destruct e; try (destruct (IH _ _ _ _ H) as [A B]; cbn [length]; lia).
+        injection H as _ <-. cbn [length]. lia.
+    + injection H as _ <-. lia.
+Qed.
+(* a non-empty line is returned as soon as it is seen *)
+Lemma retry_nonempty n c r sc : retry n (c :: r) sc = (RLine (c :: r), sc).
+Proof. destruct n; reflexivity. Qed.
+
+(* the reply seen by a request: up to 26 reads, skipping empty ones *)
+Definition reads26 (sc : script) : rd * script :=
+  match readline sc with (RLine r, sc2) => retry 25 (strip r) sc2 | (RRaise, sc2) => (RRaise, sc2) end.
+Lemma readline_consumes sc y sc2 : readline sc = (y, sc2) -> (length sc2 <= length sc)%nat /\ (length sc - length sc2 <= 1)%nat.
+Proof. destruct sc as [|e t]; cbn [readline]; [|destruct e]; intros H; injection H as _ <-; cbn [length]; lia. Qed.
+Lemma reads26_consumes sc x sc' : reads26 sc = (x, sc') -> (length sc - length sc' <= 26)%nat.
+Proof.
+  unfold reads26. destruct (readline sc) as [[r|] sc2] eqn:E; intros H; destruct (readline_consumes _ _ _ E) as [A B].
+  - destruct (retry_consumes _ _ _ _ _ H) as [C D]. lia.
+  - injection H as _ <-. lia.
+Qed.
+
+Definition good_reply (nm r : text) : bool := startswith r nm && negb (contains r (T "Err:")).
+
+(* the object after a command, as a function of what the (at most 26) reads produced *)
+Definition command_result (s : ebb3) (nm : text) (x : rd) : ebb3 :=
+  let '(s1, response) :=
+    match x with
+    | RLine r => (if startswith r nm then s else record_error s (match r with [] => E_TIMEOUT | _ => E_UNEXPECTED end), r)
+    | RRaise => (if reboot_like nm then s else record_error s E_USB, [])
+    end in
+  if contains response (T "Err:") then record_error s1 E_ERRREPLY else s1.
+
+(* command: exactly one write of the trimmed text (then CR), at most 26 reads *)
+Lemma command_unfold s cmd sc c nm sc1 x sc' :
+  blocked s = false -> strip cmd = c -> cmd_name c = Some nm -> write_ok sc = (true, sc1) -> reads26 sc1 = (x, sc') ->
+  command s cmd sc = (command_result s nm x, Ret (err_free (command_result s nm x)), [c], sc').
+Proof.
+  intros B Ec En Ew Er. unfold command. rewrite B, Ec, En. unfold write_read. rewrite Ew.
+  unfold reads26 in Er. unfold command_result.
+  destruct (readline sc1) as [[r0|] sc2].
+  - rewrite Er. destruct x; reflexivity.
+  - injection Er as <- <-. reflexivity.
+Qed.
+Lemma command_write_fault s cmd sc c nm sc1 :
+  blocked s = false -> strip cmd = c -> cmd_name c = Some nm -> write_ok sc = (false, sc1) ->
+  command s cmd sc = (command_result s nm RRaise, Ret (err_free (command_result s nm RRaise)), [], sc1).
+Proof. intros B Ec En Ew. unfold command. rewrite B, Ec, En. unfold write_read. rewrite Ew. reflexivity. Qed.
+
+(* success iff the reply begins with the request's name and carries no "Err:"; a failure is recorded; success changes nothing *)
+Theorem command_result_spec s nm x : err s = None -> reboot_like nm = false ->
+  (err_free (command_result s nm x) = true <-> exists r, x = RLine r /\ good_reply nm r = true) /\
+  (err_free (command_result s nm x) = true -> command_result s nm x = s) /\
+  (err_free (command_result s nm x) = false <-> err (command_result s nm x) <> None).
+Proof.
+  intros Hn RB. unfold command_result, good_reply. remember (T "Err:") as ERR.
+  assert (RE : forall k, err (record_error s k) = Some k) by (intros k; unfold record_error; rewrite Hn; reflexivity).
+  assert (RR : forall k k', record_error (record_error s k) k' = record_error s k).
+  { intros k k'. unfold record_error at 1. rewrite RE. reflexivity. }
+  assert (EF : forall k, err_free (record_error s k) = false) by (intros k; unfold err_free; rewrite RE; reflexivity).
+  assert (ES : err_free s = true) by (unfold err_free; rewrite Hn; reflexivity).
+  destruct x as [r|].
+  - destruct (startswith r nm) eqn:S1; destruct (contains r ERR) eqn:S2; cbn [negb andb];
+    rewrite ?RR, ?EF, ?ES.
+    + split; [split; [discriminate|intros (r' & E & G); injection E as <-; rewrite S1, S2 in G; discriminate]|].
+      split; [discriminate|]. rewrite RE. split; [discriminate|reflexivity].
+    + split; [split; [intros _; exists r; rewrite S1, S2; split; reflexivity|reflexivity]|].
+      split; [reflexivity|]. rewrite Hn. split; [discriminate|intros C; congruence].
+    + split; [split; [discriminate|intros (r' & E & G); injection E as <-; rewrite S1 in G; discriminate]|].
+      split; [discriminate|]. rewrite RE. split; [discriminate|reflexivity].
+    + split; [split; [discriminate|intros (r' & E & G); injection E as <-; rewrite S1 in G; discriminate]|].
+      split; [discriminate|]. rewrite RE. split; [discriminate|reflexivity].
+  - rewrite RB. assert (C0 : contains [] ERR = false) by (subst ERR; reflexivity). rewrite C0, EF.
+    split; [split; [discriminate|intros (r' & E & _); discriminate]|]. split; [discriminate|]. rewrite RE. split; [discriminate|reflexivity].
+Qed.
+
+(* ---------- query ---------- *)
+Definition payload (nm r : text) : text :=
+  let hl := length nm in
+  skipn (match nth_error r hl with Some c => if c =? 44 then S hl else hl | None => hl end) r.
+Definition query_result (s : ebb3) (nm : text) (x : rd) : ebb3 * option text :=
+  let after (response : text) :=
+    if contains response (T "Err:") || negb (startswith response nm)
+    then (record_error s (match response with [] => E_TIMEOUT | _ => E_UNEXPECTED end), None)
+    else (s, Some (payload nm response)) in
+  match x with
+  | RLine r => after r
+  | RRaise => if reboot_like nm then after [] else (record_error s E_USB, None)
+  end.
+Lemma query_unfold s q sc c nm sc1 x sc' :
+  blocked s = false -> strip q = c -> cmd_name c = Some nm -> write_ok sc = (true, sc1) -> reads26 sc1 = (x, sc') ->
+  query s q sc = (fst (query_result s nm x), Ret (snd (query_result s nm x)), [c], sc').
+Proof.
+  intros B Ec En Ew Er. unfold query. rewrite B, Ec, En. unfold write_read. rewrite Ew.
+  unfold reads26 in Er. unfold query_result, payload.
+  destruct (readline sc1) as [[r0|] sc2].
+  - rewrite Er. destruct x as [r|].
+    + destruct (contains r (T "Err:") || negb (startswith r nm)); reflexivity.
+    + destruct (reboot_like nm); [|reflexivity]. destruct (contains [] (T "Err:") || negb (startswith [] nm)); reflexivity.
+  - injection Er as <- <-. destruct (reboot_like nm); [|reflexivity]. destruct (contains [] (T "Err:") || negb (startswith [] nm)); reflexivity.
+Qed.
+(* a query returns the reply minus the name and one separating comma exactly when the reply is good; otherwise None with the failure recorded *)
+Theorem query_result_spec s nm x : err s = None -> nm <> [] ->
+  (forall p, snd (query_result s nm x) = Some p <-> exists r, x = RLine r /\ good_reply nm r = true /\ p = payload nm r) /\
+  (snd (query_result s nm x) <> None -> fst (query_result s nm x) = s) /\
+  (snd (query_result s nm x) = None -> err (fst (query_result s nm x)) <> None).
+Proof.
+  intros Hn Hnm. unfold query_result, good_reply. remember (T "Err:") as ERR.
+  assert (RE : forall k, err (record_error s k) = Some k) by (intros k; unfold record_error; rewrite Hn; reflexivity).
+  assert (S0 : startswith [] nm = false) by (destruct nm; [congruence|reflexivity]).
+  destruct x as [r|].
+  - assert (Bad : contains r ERR || negb (startswith r nm) = true ->
+      (forall p, None = Some p <-> exists r', RLine r = RLine r' /\ startswith r' nm && negb (contains r' ERR) = true /\ p = payload nm r')).
+    { intros Hb p. split; [discriminate|]. intros (r' & E & G & _). assert (r' = r) by (inversion E; reflexivity). subst r'.
+      apply andb_true_iff in G. destruct G as [G1 G2]. apply negb_true_iff in G2. rewrite G1, G2 in Hb. discriminate. }
+    destruct (contains r ERR || negb (startswith r nm)) eqn:Hb; cbn [fst snd].
+    + split; [exact (Bad eq_refl)|]. split; [congruence|intros _; rewrite RE; discriminate].
+    + apply orb_false_iff in Hb. destruct Hb as [S2 S1]. apply negb_false_iff in S1.
+      split; [|split; [reflexivity|congruence]].
+      intros p. split.
+      * intros E. injection E as <-. exists r. rewrite S1, S2. repeat split.
+      * intros (r' & E & _ & P). assert (r' = r) by (inversion E; reflexivity). subst r'. subst p. reflexivity.
+  - destruct (reboot_like nm).
+    + assert (C0 : contains [] ERR = false) by (subst ERR; reflexivity). rewrite C0, S0. cbn [orb negb fst snd].
+      split; [intros p; split; [discriminate|intros (r' & E & _); discriminate]|]. split; [congruence|intros _; rewrite RE; discriminate].
+    + cbn [fst snd]. split; [intros p; split; [discriminate|intros (r' & E & _); discriminate]|]. split; [congruence|intros _; rewrite RE; discriminate].
+Qed.
+
+(* ---------- no exception escapes command / query / query_statusbyte, whatever the port does ---------- *)
+Theorem primitives_no_raise c s t sc : cmd_name (strip t) <> None ->
+  (exists s' b w sc', command s t sc = (s', Ret b, w, sc')) /\
+  (exists s' v w sc', query s t sc = (s', Ret v, w, sc')) /\
+  (exists s' v w sc', query_statusbyte c s sc = (s', Ret v, w, sc')).
+Proof.
+  intros Hn. split; [|split].
+  - unfold command. destruct (blocked s); [repeat eexists|].
+    destruct (cmd_name (strip t)) as [nm|]; [|congruence].
+    destruct (write_read (strip t) sc) as [[wr io] sc']. destruct io; destruct (startswith _ _) || idtac; repeat eexists.
+  - unfold query. destruct (blocked s); [repeat eexists|].
+    destruct (cmd_name (strip t)) as [nm|]; [|congruence].
+    destruct (write_read (strip t) sc) as [[wr io] sc']. destruct io as [r|].
+    + destruct (contains r (T "Err:") || negb (startswith r nm)); repeat eexists.
+    + destruct (reboot_like nm); [destruct (contains [] (T "Err:") || negb (startswith [] nm))|]; repeat eexists.
+  - unfold query_statusbyte. destruct (blocked s); [repeat eexists|].
+    destruct (write_ok sc) as [wok sc1]. destruct wok; cbn [negb]; [|repeat eexists].
+    destruct (readline sc1) as [[r0|] sc2]; [|repeat eexists].
+    destruct (contains (strip r0) (T "Err:")); [repeat eexists|].
+    destruct (negb (startswith (strip r0) (T "QG")) && fix_status c); repeat eexists.
+Qed.
+
+(* ---------- attribution: against a conforming device each reply is consumed by the request that caused it ---------- *)
+(* a request text with its name and the reply the device sends for it *)
+Record exchange := mkex { x_query : bool; x_text : text; x_name : text; x_reply : text }.
+Definition ex_ok (e : exchange) : Prop :=
+  cmd_name (strip (x_text e)) = Some (x_name e) /\ good_reply (x_name e) (strip (x_reply e)) = true /\ strip (x_reply e) <> [].
+Definition device (es : list exchange) : script := flat_map (fun e => [Empty; Line (x_reply e)]) es.
+Definition ex_call (e : exchange) : call := if x_query e then CQuery (x_text e) else CCommand (x_text e).
+Definition ex_result (e : exchange) : rv := if x_query e then RStr (payload (x_name e) (strip (x_reply e))) else RBool true.
+
+Lemma reads26_line l t : strip l <> [] -> reads26 (Line l :: t) = (RLine (strip l), t).
+Proof. intros H. unfold reads26. cbn [readline]. destruct (strip l) as [|c r] eqn:E; [congruence|]. apply retry_nonempty. Qed.
+
+Theorem conforming_attribution c : forall es s rest, Forall ex_ok es -> blocked s = false ->
+  Forall2 (fun e ent => let '(pre, k, post, o, w) := ent in
+             pre = s /\ post = s /\ k = ex_call e /\ o = Ret (ex_result e) /\ w = [strip (x_text e)])
+          es (run c s (device es ++ rest) (map ex_call es)).
+Proof.
+  induction es as [|e es IH]; intros s rest Hok B; [constructor|].
+  inversion Hok as [|e' es' (Hn & Hg & Hne) Hrest]; subst.
+  assert (Hnone : err s = None).
+  { unfold blocked in B. apply orb_false_iff in B. destruct B as [_ B]. destruct (err s); [discriminate|reflexivity]. }
+  assert (Hnm : x_name e <> []).
+  { destruct (strip (x_text e)) as [|a [|b t]]; cbn in Hn; try discriminate; [|destruct (b =? 44)]; injection Hn as <-; discriminate. }
+  assert (DC : device (e :: es) ++ rest = Empty :: Line (x_reply e) :: device es ++ rest) by reflexivity.
+  rewrite DC. cbn [map run].
+  change (step c s (ex_call e)) with (step c s (if x_query e then CQuery (x_text e) else CCommand (x_text e))).
+  destruct (x_query e) eqn:Q; cbn [step].
+  - pose proof (query_unfold s (x_text e) (Empty :: Line (x_reply e) :: device es ++ rest) _ _ _ _ _ B eq_refl Hn eq_refl (reads26_line _ _ Hne)) as U.
+    rewrite U. unfold lift_otext.
+    destruct (query_result_spec s (x_name e) (RLine (strip (x_reply e))) Hnone Hnm) as (A1 & A2 & A3).
+    assert (P : snd (query_result s (x_name e) (RLine (strip (x_reply e)))) = Some (payload (x_name e) (strip (x_reply e)))).
+    { apply A1. eexists. repeat split. exact Hg. }
+    assert (S' : fst (query_result s (x_name e) (RLine (strip (x_reply e)))) = s) by (apply A2; rewrite P; discriminate).
+    rewrite P, S'. constructor.
+    + repeat split; unfold ex_call, ex_result; rewrite ?Q; reflexivity.
+    + apply IH; assumption.
+  - pose proof (command_unfold s (x_text e) (Empty :: Line (x_reply e) :: device es ++ rest) _ _ _ _ _ B eq_refl Hn eq_refl (reads26_line _ _ Hne)) as U.
+    rewrite U. unfold lift_bool.
+    assert (G : err_free (command_result s (x_name e) (RLine (strip (x_reply e)))) = true /\ command_result s (x_name e) (RLine (strip (x_reply e))) = s).
+    { unfold command_result. unfold good_reply in Hg. apply andb_true_iff in Hg. destruct Hg as [G1 G2]. rewrite G1.
+      apply negb_true_iff in G2. rewrite G2. unfold err_free. rewrite Hnone. split; reflexivity. }
+    destruct G as [G1 G2]. rewrite G1, G2. constructor.
+    + repeat split; unfold ex_call, ex_result; rewrite ?Q; reflexivity.
+    + apply IH; assumption.
+Qed.
